@@ -183,7 +183,7 @@ func declaredParent(fn *ssa.Function) *ssa.Function {
 type FieldWrite struct {
 	Fn    *ssa.Function
 	Instr ssa.Instruction
-	Kind  string // store | mapupdate | delete | elemstore
+	Kind  string // store | mapupdate | delete | clear | deletefunc | elemstore
 	Fresh bool   // the object written was allocated in the same function (constructor)
 }
 
@@ -224,9 +224,15 @@ func (p *Prog) fieldWrites(fv *types.Var) []FieldWrite {
 					out = append(out, FieldWrite{fn, in, "mapupdate", fresh(fa)})
 				}
 			case *ssa.Call:
-				if b, ok := x.Call.Value.(*ssa.Builtin); ok && b.Name() == "delete" && len(x.Call.Args) > 0 {
+				if b, ok := x.Call.Value.(*ssa.Builtin); ok && (b.Name() == "delete" || b.Name() == "clear") && len(x.Call.Args) > 0 {
 					if fa, ok := loadOfField(x.Call.Args[0]); ok {
-						out = append(out, FieldWrite{fn, in, "delete", fresh(fa)})
+						out = append(out, FieldWrite{fn, in, b.Name(), fresh(fa)})
+					}
+				}
+				// maps.DeleteFunc(m, pred) removes entries of the map held in the field
+				if cal := x.Call.StaticCallee(); cal != nil && strings.HasPrefix(cal.String(), "maps.DeleteFunc") && len(x.Call.Args) == 2 {
+					if fa, ok := loadOfField(x.Call.Args[0]); ok {
+						out = append(out, FieldWrite{fn, in, "deletefunc", fresh(fa)})
 					}
 				}
 			}
